@@ -391,6 +391,22 @@ func (c *Ctx) resolveFieldRenames() {
 				fresh = append(fresh, f)
 			}
 		}
+		// first by position: the field now standing where the missing one stood, same type, unknown name
+		for k, kf := range known {
+			parts := strings.SplitN(kf, "\x00", 2)
+			if have[parts[0]] || k >= st.NumFields() {
+				continue
+			}
+			f := st.Field(k)
+			if _, isKnown := knownNames[f.Name()]; isKnown || f.Exported() {
+				continue
+			}
+			if _, used := fieldAlias[f]; !used && types.TypeString(f.Type(), q) == parts[1] {
+				fieldAlias[f] = parts[0]
+				have[parts[0]] = true
+				c.Renamed = append(c.Renamed, tn+"."+f.Name()+" → treated as field "+tn+"."+parts[0]+" (same position and type)")
+			}
+		}
 		for name, typ := range knownNames {
 			if have[name] {
 				continue
